@@ -47,7 +47,13 @@ theorem PInv.wakeWaiters {w : World} (hp : PInv ex fr w) (p : Pid) (sig : Int) :
     obtain ⟨q, hq, rfl⟩ := hx
     rw [heq]; exact ⟨rfl, q, hq, rfl⟩
   have hne : (aProc : Nat) ≠ aEvent := by decide
-  refine { ei := pushAll_evinv _ hp.ei,
+  refine { sb := fun e he _ => by
+             simp only [pushAll_pending, modProc_ev, List.mem_append] at he
+             rcases he with he | he
+             · obtain ⟨_, q, _, hbq⟩ := hnew e he
+               rw [hbq]; exact Nat.succ_ne_zero q
+             · exact hp.sb e he (by assumption),
+           ei := pushAll_evinv _ hp.ei,
            ap := fun x => by rw [hpa]; exact hp.ap x,
            ae := fun x => by rw [hea]; exact hp.ae x,
            ar := fun x hx => by rw [hpa, hea]; rw [(haw x).2.1] at hx; exact hp.ar x hx,
@@ -161,7 +167,7 @@ theorem PInv.cmd_waitProc {w : World} (hp : PInv ex fr w) {p q : Pid} (hfr : fr 
     · exact ha
   have hnop : ∀ a, Await.proc a ∉ (w.proc p).awaits := by
     intro a ha; rw [mem_awaits_proc, hnil.1] at ha; cases ha
-  refine { ei := hp.ei, ap := ?_, ae := ?_, ar := ?_, fb := ?_, w1 := ?_, wn := ?_, e1 := ?_, en := hp.en,
+  refine { sb := hp.sb, ei := hp.ei, ap := ?_, ae := ?_, ar := ?_, fb := ?_, w1 := ?_, wn := ?_, e1 := ?_, en := hp.en,
            op := ?_, oe := ?_, up := hp.up, ue := hp.ue, oh := ?_, es := hp.es }
   · intro x; rw [hpa]
     by_cases hx : x = p
@@ -278,7 +284,7 @@ theorem PInv.cmd_waitEvent {w : World} (hp : PInv ex fr w) {p : Pid} {h : Nat} (
     intro hm
     obtain ⟨l, hl, hpl'⟩ := evWaitersOf_mem hm
     exact hnoe h (hp.e1 h l p hl hpl' hxp)
-  refine { ei := by rw [hev]; exact hp.ei, ap := ?_, ae := ?_, ar := ?_, fb := ?_, w1 := ?_, wn := ?_, e1 := ?_, en := ?_,
+  refine { sb := by rw [hev]; exact hp.sb, ei := by rw [hev]; exact hp.ei, ap := ?_, ae := ?_, ar := ?_, fb := ?_, w1 := ?_, wn := ?_, e1 := ?_, en := ?_,
            op := ?_, oe := ?_, oh := ?_, up := by rw [hev]; exact hp.up, ue := by rw [hev]; exact hp.ue,
            es := fun h' l hm => by
              rw [hew] at hm; rw [hev]
